@@ -1,8 +1,71 @@
 import XmppModel.Prelude.Hex
-/-! Driver module for C17: `handle args` answers one protocol line (fields after the
-property id); `none` means the line is not understood (`!bad-op`). -/
-namespace XmppModel.Driver.C17
+import XmppModel.Model.Styling
+/-!
+Driver for C17 (see harness/c17 for the line protocol).
 
-def handle (_args : List String) : Option String := none
+    hist <doc> <len:eof,…>               replay a sequence of split-function calls; call k gets
+                                         `doc[pos : pos+len]` where `pos` is the sum of the advances so far
+                                         → `adv,…` (`m` = more, `P` = panic, `!` = call out of range)
+    split <doc> <sizes> <dataEOF> <lim>  a `bufio.Scanner` with `styling.Scan()` under a chunk schedule
+                                         → `len:eof:adv,…;<end>` (every split call up to the last token)
+    dec <doc> <sizes> <dataEOF> <lim>    `NewDecoder` read to the end
+                                         → `len:style:quote:info,…;<end>` (info hex, `~` = nil)
+-/
+namespace XmppModel.Driver.C17
+open XmppModel XmppModel.Styling
+
+def parseNatList (s : String) : Option (List Nat) := mapM? String.toNat? (splitList s)
+
+def parseLimit (s : String) : Option (Option Nat) :=
+  if s == "-" then some none else s.toNat?.map some
+
+def parseCall (s : String) : Option (Nat × Bool) :=
+  match s.splitOn ":" with
+  | [n, e] => do pure (← n.toNat?, ← parseBool e)
+  | _ => none
+
+def showOut : Out → String
+  | .more => "m" | .panic => "P" | .tok a _ => toString a
+
+def hist (doc : Bytes) : Dec → List (Nat × Bool) → List String
+  | _, [] => []
+  | d, (n, e) :: cs =>
+    if n > doc.length then ["!"] else
+    let r := d.scan (doc.take n) e
+    match r.1 with
+    | .tok a t =>
+      (if t == (doc.take n).take a then toString a else "X" ++ toString a) :: hist (doc.drop a) r.2 cs
+    | o => showOut o :: hist doc r.2 cs
+
+def showEnd : End → String
+  | .eof => "eof" | .tooLong => "toolong" | .badSplit => "badsplit" | .panic => "PANIC" | .fuel => "FUEL"
+
+/-- split function with a call log (newest first) -/
+def logSplit : Split (Dec × List String) := fun s buf eof =>
+  let r := s.1.scan buf eof
+  (r.1, r.2, s!"{buf.length}:{showBool eof}:{showOut r.1}" :: s.2)
+
+def showEvent (e : Event) : String :=
+  let info := match e.info with | none => "~" | some i => hexEncode i
+  s!"{e.data.length}:{e.style.toNat}:{e.quote}:{info}"
+
+def handle (args : List String) : Option String :=
+  match args with
+  | ["hist", doc, calls] => do
+    let d ← hexDecode doc
+    let cs ← mapM? parseCall (splitList calls)
+    pure (joinList (hist d {} cs))
+  | ["split", doc, sizes, deof, lim] => do
+    let d ← hexDecode doc; let sz ← parseNatList sizes; let de ← parseBool deof; let l ← parseLimit lim
+    let r := scanner logSplit l (fuelFor d) sz de (({} : Dec), []) [] d false
+    let log := match r.1.getLast? with | some (_, s) => s.2.reverse | none => []
+    pure (joinList log ++ ";" ++ showEnd r.2)
+  | ["dec", doc, sizes, deof, lim] => do
+    let d ← hexDecode doc; let sz ← parseNatList sizes; let de ← parseBool deof; let l ← parseLimit lim
+    let r := decode l ⟨sz, de⟩ d
+    match r.1 with
+    | none => pure "PANIC"
+    | some evs => pure (joinList (evs.map showEvent) ++ ";" ++ showEnd r.2)
+  | _ => none
 
 end XmppModel.Driver.C17
